@@ -122,7 +122,8 @@ pub fn check(cfg: &Cfg) -> Result<i32, Harness> {
     let mut samples = Vec::new();
     let mut schedules = 0u64;
     let per_proc = cfg.n(120, 6000);
-    let procs = cfg.workers.max(1);
+    // the set of runs must not depend on the number of workers
+    let procs = 16usize;
     for sync in [false, true] {
         let flavour = if sync { "sync" } else { "default" };
         let exe = match build(cfg, sync)? {
@@ -163,6 +164,7 @@ pub fn check(cfg: &Cfg) -> Result<i32, Harness> {
         for ((k, sched), r) in tasks.iter().zip(res) {
             let r = r?;
             if let Some(st) = r.stats {
+                record_digest(*k as u64 * 4 + (sync as u64) * 2 + (*sched == "pct") as u64, hash_str(&st.to_string()));
                 schedules += st["schedules"].as_u64().unwrap_or(0);
                 tally.add_n(format!("schedules:{flavour}:{sched}"), st["schedules"].as_u64().unwrap_or(0));
                 tally.add_n("threads", st["threads"].as_u64().unwrap_or(0));
